@@ -10,12 +10,14 @@
                    held     verify: mutex.compare_exchange(0, addr)   (binds the mutex; fresh SyncBlocker `b`)
                    w1push   to_wake.push(cur)
                    w2unlock unlock_mutex(lock)                         (mutex spec)
-                   w3park   cur.park(dur) -> Ok | Err(Timeout) (Env.abort, timed waits) | Err(Canceled) (Env.cancel)
+                   w3park   cur.park(dur) -> Ok | Err(_) (Env.abort: Timeout or Canceled – wait_impl only looks at is_err())
                    w4lockOk / w4lockE   forget(lock.lock())            (mutex spec: blocks until free)
                    w5load   cur.is_unparked() ? notify_one()
                    w6set    cur.set_release()    w7load  cur.is_unparked()    w8swap  cur.take_release() ? notify_one()
-                   wdone r  wait_impl returns (r = timed out) holding the mutex
-                   w9unlock (Canceled) unlock_mutex(lock); trigger_cancel_panic()
+                   wend d   wait_impl returned Err: `if ret == Err(ParkError::Canceled)` in wait / wait_timeout
+                            (Env.cancel -> w9unlock;  otherwise it was the time-out, possible only for a timed wait)
+                   wdone r  wait / wait_timeout returns (r = timed out) holding the mutex
+                   w9unlock (Canceled) forget(guard); unlock_mutex(lock); trigger_cancel_panic()
       notify_one:  n0pop    to_wake.pop()  -> None: return
                    n1unpark w.blocker.unpark()     n2store  w.unparked.store(true)
                    n3swap   w.release.swap(false) ? notify_one() again
@@ -36,16 +38,17 @@ import MayVerif.Model.Sync.Mutex
 namespace MayVerif.Condvar
 open MayVerif.Mutex (APh VPh upd)
 
-/-- where a `notify_*` returns to: user code without / with the mutex, or the tail of `wait_impl`
-    (`c` = the wait was cancelled, not timed out) -/
-inductive K | idle | held | wret (c : Bool)
+/-- where a `notify_*` returns to: user code without / with the mutex, or the tail of `wait_impl` after a park that
+    returned Err (`d` = the wait had a time-out) -/
+inductive K | idle | held | wret (d : Bool)
   deriving DecidableEq, Repr
 
 inductive Pc
   | idle | held
   | w1push (b : Bid) (d : Bool) | w2unlock (b : Bid) (d : Bool) | w3park (b : Bid) (d : Bool)
-  | w4lockOk | w4lockE (b : Bid) (c : Bool)
-  | w5load (b : Bid) (c : Bool) | w6set (b : Bid) (c : Bool) | w7load (b : Bid) (c : Bool) | w8swap (b : Bid) (c : Bool)
+  | w4lockOk | w4lockE (b : Bid) (d : Bool)
+  | w5load (b : Bid) (d : Bool) | w6set (b : Bid) (d : Bool) | w7load (b : Bid) (d : Bool) | w8swap (b : Bid) (d : Bool)
+  | wend (d : Bool)
   | w9unlock
   | wdone (r : Bool)
   | n0pop (k : K) | n1unpark (w : Bid) (k : K) | n2store (w : Bid) (k : K) | n3swap (w : Bid) (k : K)
@@ -53,7 +56,7 @@ inductive Pc
   deriving DecidableEq, Repr
 
 /-- environment / caller choices: which API is called (`wait d`: `d` = with a time-out), whether a park ends
-    by time-out (`abort`) or cancellation (`cancel`) -/
+    with an error (`abort`), and whether that error was the cancellation (`cancel`, at `wend`) -/
 inductive Env | lock | unlock | wait (d : Bool) | notifyOne | notifyAll | abort | cancel | go
   deriving DecidableEq, Repr
 
@@ -79,8 +82,7 @@ structure Sh where
 def contK : K → Pc
   | .idle => .idle
   | .held => .held
-  | .wret true => .w9unlock
-  | .wret false => .wdone true
+  | .wret d => .wend d
 
 def tstep (sh : Sh) (me : Tid) : Pc → Env → Option (Sh × Pc)
   | .idle, .lock => if sh.locked then none else some ({ sh with locked := true, owner := me }, .held)
@@ -94,8 +96,7 @@ def tstep (sh : Sh) (me : Tid) : Pc → Env → Option (Sh × Pc)
   | .held, _ => none
   | .w1push b d, _ => some ({ sh with q := sh.q ++ [b] }, .w2unlock b d)
   | .w2unlock b d, _ => some ({ sh with locked := false }, .w3park b d)
-  | .w3park b d, .abort => if d then some ({ sh with aph := upd sh.aph b .a1 }, .w4lockE b false) else none
-  | .w3park b _, .cancel => some ({ sh with aph := upd sh.aph b .a1 }, .w4lockE b true)
+  | .w3park b d, .abort => some ({ sh with aph := upd sh.aph b .a1 }, .w4lockE b d)
   | .w3park b _, _ => if sh.tok b then some ({ sh with tok := upd sh.tok b false, got := upd sh.got b true }, .w4lockOk) else none
   | .w4lockOk, _ => if sh.locked then none else some ({ sh with locked := true, owner := me }, .wdone false)
   | .w4lockE b c, _ => if sh.locked then none else some ({ sh with locked := true, owner := me }, .w5load b c)
@@ -110,6 +111,8 @@ def tstep (sh : Sh) (me : Tid) : Pc → Env → Option (Sh × Pc)
                       duty := if sh.release b then upd sh.duty b true else sh.duty,
                       dup := sh.dup || (sh.release b && sh.duty b) },
             if sh.release b then .n0pop (.wret c) else contK (.wret c))
+  | .wend _, .cancel => some (sh, .w9unlock)
+  | .wend d, _ => if d then some (sh, .wdone true) else none
   | .w9unlock, _ => some ({ sh with locked := false }, .idle)
   | .wdone _, _ => some (sh, .held)
   | .n0pop k, _ => match sh.q with
@@ -132,7 +135,7 @@ def tstep (sh : Sh) (me : Tid) : Pc → Env → Option (Sh × Pc)
 @[grind] def kHolds : K → Bool | .idle => false | _ => true
 /-- this actor holds the associated mutex (spec level) -/
 @[grind] def holdsM : Pc → Bool
-  | .held | .w1push .. | .w2unlock .. | .w5load .. | .w6set .. | .w7load .. | .w8swap .. | .w9unlock | .wdone _ => true
+  | .held | .w1push .. | .w2unlock .. | .w5load .. | .w6set .. | .w7load .. | .w8swap .. | .wend _ | .w9unlock | .wdone _ => true
   | .n0pop k | .n1unpark _ k | .n2store _ k | .n3swap _ k | .a0pop k | .a1unpark _ k | .a2store _ k => kHolds k
   | .idle | .w3park .. | .w4lockOk | .w4lockE .. => false
 
